@@ -759,7 +759,7 @@ where
                     ..
                 }) => {
                     if self.options.optimize {
-                        match &**expr {
+                        match strip_parens(expr) {
                             Expr::Ident(ident)
                                 if !ident.to_id().1.has_mark(self.unresolved_mark) =>
                             {
@@ -780,7 +780,7 @@ where
                 }
                 JSXElementChild::JSXSpreadChild(JSXSpreadChild { expr, .. }) => {
                     if self.options.optimize {
-                        match &**expr {
+                        match strip_parens(expr) {
                             Expr::Ident(ident)
                                 if !ident.to_id().1.has_mark(self.unresolved_mark) =>
                             {
@@ -835,7 +835,8 @@ where
                     Expr::Lit(Lit::Null(Null { span: DUMMY_SP }))
                 }
             }
-            [Some(ExprOrSpread { spread: None, expr })] => match &**expr {
+            // parentheses do not change what the single child is
+            [Some(ExprOrSpread { spread: None, expr })] => match strip_parens(expr) {
                 expr @ Expr::Ident(..) if is_component => {
                     let elems = self.build_iife(elems.clone());
                     if self.options.enable_object_slots {
@@ -1778,6 +1779,13 @@ impl Visit for TypeDeclCollector<'_> {
 }
 
 /// `<a.b.c />` denotes the value of the member expression `a.b.c`.
+fn strip_parens(expr: &Expr) -> &Expr {
+    match expr {
+        Expr::Paren(ParenExpr { expr, .. }) => strip_parens(expr),
+        expr => expr,
+    }
+}
+
 fn jsx_member_to_expr(jsx_member_expr: &JSXMemberExpr) -> Expr {
     Expr::Member(MemberExpr {
         span: DUMMY_SP,
